@@ -133,6 +133,18 @@ pub fn gen(ctx: &mut Ctx) {
         run_kind(ctx, kind, &ops);
         ctx.stat("c17.ceremony_cases");
     }
+    // ---- the well-known constants browsers send in their dummy ("bogus") registrations - 32 x 'A' as application, 32 x 'B'
+    //      as challenge - and all-zero / all-0xff parameters: a registration is a registration whatever its parameters
+    for kind in [Kind::RefFull, Kind::Map, Kind::Slot] {
+        for (a, c) in [(0x41u8, 0x42u8), (0x00, 0x00), (0xff, 0xff), (0x41, 0x41), (0x42, 0x41)] {
+            let (app, chal, handle) = (vec![a; 32], vec![c; 32], ctx.rng.bytes(16));
+            let ops = vec![U::Reg { app: app.clone(), chal: chal.clone(), handle: handle.clone(), fault: None },
+                U::Auth { app: app.clone(), chal: ctx.rng.bytes(32), handle: handle.clone(), counter: 1, presence: 1, param: 3, fault: None },
+                U::Auth { app, chal, handle, counter: 2, presence: 1, param: 7, fault: None }];
+            run_kind(ctx, kind, &ops);
+            ctx.stat("c17.well_known_parameters");
+        }
+    }
     store_failures(ctx, "C17");
     // ---- version and request frames
     ctx.line("u2f.reset", "");
